@@ -998,6 +998,44 @@ class Rich:
         ok, _ = self.attempt(["delete", p, "by-" + ("obj" if key is e else "key")], lambda: parent_cont.__delitem__(key))
         if ok and ids:
             self.deleted_ids.update(ids)
+            self.check_deleted_links("right after the deletion")
+
+    LINK_LISTS = {"Group": ("data_arrays", "data_frames", "tags", "multi_tags", "sources"),
+                  "Tag": ("references", "sources"), "MultiTag": ("references", "sources"),
+                  "DataArray": ("sources",), "DataFrame": ("sources",)}
+    ROLE_LINKS = {"Block": ("metadata",), "Group": ("metadata",), "DataArray": ("metadata",),
+                  "DataFrame": ("metadata",), "Tag": ("metadata",), "MultiTag": ("metadata", "positions", "extents"),
+                  "Source": ("metadata",), "Feature": ("data",), "Section": ("link",)}
+
+    def check_deleted_links(self, when):
+        """deleted things stay deleted: no link list and no role link anywhere in the file yields an entity that
+        was deleted (by itself or as part of a deleted source / section subtree)"""
+        if not self.deleted_ids:
+            return
+        for p, e in self.all_entities():
+            cls = type(e).__name__
+            for cname in self.LINK_LISTS.get(cls, ()):
+                try:
+                    ids = [x.id for x in getattr(e, cname)]
+                except Exception:
+                    continue
+                self.evals += 1
+                gone = [i for i in ids if i in self.deleted_ids]
+                if gone:
+                    self.fail("a link list still yields a deleted entity (%s)" % when, [p, cname, gone[:3]],
+                              "no deleted entity in any list", "deleted")
+                    return
+            for rname in self.ROLE_LINKS.get(cls, ()):
+                try:
+                    t = getattr(e, rname)
+                    tid = None if t is None else t.id
+                except Exception:
+                    continue        # a dangling role link raises: it does not yield the deleted entity
+                self.evals += 1
+                if tid in self.deleted_ids:
+                    self.fail("a link still yields a deleted entity (%s)" % when, [p, rname, tid],
+                              "no deleted entity behind any link", "deleted")
+                    return
 
     def container_of(self, p):
         """the owning container of the entity at walk path `p` (fresh navigation)"""
@@ -1084,6 +1122,7 @@ class Rich:
             back = sorted(i for i in self.deleted_ids if i in live)
             if back:
                 self.fail("a deleted entity is back after reopen", back[:3], "absent", "deleted")
+            self.check_deleted_links("after close + reopen (%s)" % label)
             for (eid, name, p), val in self.written.items():
                 if eid in live and live[eid][0] == p:
                     got = getattr(live[eid][1], name)
@@ -1203,6 +1242,62 @@ def fixed_scenarios(ctx):
                 fails.append(Failure("an entry appended through a second handle is lost after close + reopen (%s)" % desc,
                                      {"scenario": "refill-through-second-handle", "list": desc}, ids, [want[desc]],
                                      "stale-link-list-handle"))
+    finally:
+        f.close()
+    # deleting the root of a source / section subtree of which SEVERAL members are linked from the same list / from
+    # several entities: deleted things stay deleted - every one of those links is gone, now and after reopening
+    f = fresh()
+    try:
+        b = f.create_block("b", "t")
+        a = b.create_data_array("a", "t", data=[1.0])
+        g = b.create_group("g", "t")
+        tg = b.create_tag("tg", "t", [0.0])
+        s = b.create_source("s", "t")
+        c1, c2 = s.create_source("c1", "t"), s.create_source("c2", "t")
+        d = c2.create_source("d", "t")
+        keep = b.create_source("keep", "t")
+        for lst, items in ((a.sources, [s, c1, keep, d]), (tg.sources, [c1, c2]), (g.sources, [d, keep, s])):
+            for it in items:
+                lst.append(it)
+        sec = f.create_section("sec", "t")
+        sa, sb = sec.create_section("sa", "t"), sec.create_section("sb", "t")
+        other = f.create_section("other", "t")
+        b.metadata, g.metadata, a.metadata, tg.metadata = sa, sb, sec, other
+        other.link = sa
+        del b.sources["s"]
+        del f.sections["sec"]
+
+        def seen(ff):
+            bb = ff.blocks["b"]
+            out = {"array.sources": [x.name for x in bb.data_arrays["a"].sources],
+                   "tag.sources": [x.name for x in bb.tags["tg"].sources],
+                   "group.sources": [x.name for x in bb.groups["g"].sources]}
+            for nm, e in (("block", bb), ("group", bb.groups["g"]), ("array", bb.data_arrays["a"]),
+                          ("tag", bb.tags["tg"])):
+                try:
+                    m = e.metadata
+                    out[nm + ".metadata"] = None if m is None else m.name
+                except Exception as ex:
+                    out[nm + ".metadata"] = "raises " + type(ex).__name__
+            try:
+                lk = ff.sections["other"].link
+                out["other.link"] = None if lk is None else lk.name
+            except Exception as ex:
+                out["other.link"] = "raises " + type(ex).__name__
+            return out
+        want = {"array.sources": ["keep"], "tag.sources": [], "group.sources": ["keep"], "block.metadata": None,
+                "group.metadata": None, "array.metadata": None, "tag.metadata": "other", "other.link": None}
+        got = seen(f)
+        f.close()
+        f = nixio.File.open(path, nixio.FileMode.ReadOnly)
+        got2 = seen(f)
+        for when, gt in (("in the session", got), ("after close + reopen", got2)):
+            bad = {k: gt[k] for k in want if gt[k] != want[k] and not str(gt[k]).startswith("raises")}
+            if bad:
+                fails.append(Failure("after deleting a source subtree and a section subtree, links to deleted members "
+                                     "are still there (%s)" % when,
+                                     {"scenario": "subtree-deletion-several-links"}, bad, {k: want[k] for k in bad},
+                                     "deleted"))
     finally:
         f.close()
     # a handle obtained through a link list entry, written to after the entry was unlinked
